@@ -146,6 +146,7 @@ type Engine struct {
 	usedLemmas    map[string]bool
 	ordinals      map[string]int
 	pureMode      bool
+	curProp       string
 	fnByKey       map[string]*ssa.Function
 	forceInline   map[string]bool
 	usedContracts map[string]bool
@@ -156,6 +157,7 @@ type Engine struct {
 	lockEvents    []lockEv
 	sharedKeys    []string
 	relyHook      func(st *State, key, pre, post string)
+	onWrite       func(st *State, a *Addr, prev, nv, cond, pos string)
 }
 
 func newEngine(prog *ssa.Program, db *SpecDB) *Engine {
@@ -190,6 +192,7 @@ func (x *Engine) reset(fn string) {
 	x.lockEvents = nil
 	x.sharedKeys = nil
 	x.relyHook = nil
+	x.onWrite = nil
 	if x.forceInline == nil {
 		x.forceInline = map[string]bool{}
 	}
